@@ -840,7 +840,8 @@ def req_monitor(case, obs):
             if f(l, "cbs") != ("1" if cb and done_seen else "0"):
                 return (f"reqlife-cb-count-{op}", f"callback count after completion must be {1 if cb else 0}: `{l}`")
             r = int(f(l, "result"))
-            if r > 0 and ans.startswith("E") or r < -4095:
+            was_cancelled = any(x.startswith("cancel ret=0") for x in obs)       # then the kernel was never asked
+            if (r > 0 and ans.startswith("E") and not was_cancelled) or r < -4095:
                 return (f"reqlife-result-not-normalised-{op}", f"req->result must be >= 0 or a negated errno (kernel answer {ans}): `{l}`")
         if ev in ("submit", "cancel", "done", "next") and cb and f(l, "route") != "rejected" and (op in REQ_PATH1 or op in REQ_PATH2) \
                 and not (ev == "submit" and f(l, "ret") != "0"):
@@ -883,7 +884,15 @@ def run_reqlife(ctx, exe, cases, monitors_only=False):
     no_ring = ls[:1] == ["start ring=0"]
     if no_ring:
         ctx.notes["reqlife_uring"] = "skipped: no SQPOLL ring"
-    if rc != 0 or len(groups) != len(cases) or ls[-1:] != ["bye"]:
+    crashed = rc != 0 or len(groups) != len(cases) or ls[-1:] != ["bye"]
+    if crashed and len(groups) == len(cases):
+        # every case was logged (e.g. LeakSanitizer complained at exit): let the per-case monitors name the state first
+        for c, (obs, endl) in zip(cases, groups):
+            bad = None if obs == ["skipped-no-ring"] else req_monitor(c, obs)
+            if bad:
+                ctx.violation(bad[0], f"C11 request life cycle: {bad[1]}", {"mode": "reqlife", "cases": [list(c)]})
+                return False
+    if crashed:
         k = len(groups)
         at = cases[k] if k < len(cases) else None
         what = "did not finish (request never completed / loop never returned)" if rc == -999 else f"exited {rc}"
